@@ -11,6 +11,7 @@
 #include "CppUTest/TestPlugin.h"
 #include "CppUTest/TestFailure.h"
 #include "CppUTest/TestResult.h"
+#include "CppUTest/TestFilter.h"
 #undef new
 #undef malloc
 #undef free
@@ -418,7 +419,42 @@ void executeRun(const Desc& d, Obs& o) {
 
     Vec<Str> av; buildArgv(d, av);
     Vec<const char*> avp; for (size_t i = 0; i < av.size(); i++) avp.push_back(av[i].c_str());
-    {
+    if (d.pi("via_api") && d.pi("output") == 0) {
+        // the same configuration applied directly through the TestFilter / TestRegistry API, without the command-line parser
+        fired("configured_through_registry_api");
+        Config c = configOf(d);
+        SetPointerPlugin pPlugin(DEF_PLUGIN_SET_POINTER); reg.installPlugin(&pPlugin);
+        TestFilter* gfl = 0; TestFilter* nfl = 0; Vec<TestFilter*> made;
+        for (size_t g = 0; g < d.groups.size(); g++) {
+            const Group& G = d.groups[g]; if (G.tag != "filter") continue;
+            int form = (int)G.arg(3); bool strict = G.arg(1) != 0 || form >= 2, invert = G.arg(2) != 0 && form < 2;
+            for (int part = 0; part < (form == 0 ? 1 : 2); part++) {
+                bool isName = form == 0 ? G.arg(0) != 0 : part == 1;
+                TestFilter* f = new (::malloc(sizeof(TestFilter))) TestFilter(form == 0 ? G.sarg(0) : G.sarg((size_t)part));
+                if (strict) f->strictMatching(); if (invert) f->invertMatching();
+                made.push_back(f);
+                if (isName) nfl = f->add(nfl); else gfl = f->add(gfl);
+            }
+        }
+        reg.setGroupFilters(gfl); reg.setNameFilters(nfl);
+        if (c.runIgnored) reg.setRunIgnored();
+        UtestShell::setRethrowExceptions(false);
+        RecConsole* out = new (::malloc(sizeof(RecConsole))) RecConsole(); RS.primaryOutput = out;
+        if (c.verbose == 1) out->verbose(TestOutput::level_verbose); if (c.verbose == 2) out->verbose(TestOutput::level_veryVerbose); if (c.color) out->color();
+        if (c.reverse) reg.reverseTests();
+        size_t seedForShuffle = c.shuffle == 1 ? (size_t)c.shuffleSeed : (size_t)(unsigned)simTimeInMillis(); if (seedForShuffle == 0) seedForShuffle = 1;
+        int reps = c.repeat > 0 ? c.repeat : 1; size_t failedTests = 0, failedRuns = 0;
+        for (int rp = 0; rp < reps; rp++) {
+            if (c.shuffle) reg.shuffleTests(seedForShuffle);
+            out->printTestRun((size_t)rp + 1, (size_t)reps);
+            TestResult tr(*out); reg.runAllTests(tr);
+            failedTests += tr.getFailureCount(); if (tr.isFailure()) failedRuns++;
+        }
+        o.ret = (int)(failedTests ? failedTests : failedRuns);
+        reg.removePluginByName(DEF_PLUGIN_SET_POINTER);
+        out->~RecConsole(); ::free(out);
+        for (size_t i = 0; i < made.size(); i++) { made[i]->~TestFilter(); ::free(made[i]); }
+    } else {
         SimRunner runner((int)avp.size(), avp.data(), &reg);
         o.ret = runner.runAllTestsMain();
     }
